@@ -4186,9 +4186,16 @@ xpath_derived_ident_module(const char **qname, uint32_t *qname_len, const struct
 {
     LY_CHECK_RET(moveto_resolve_model(qname, qname_len, set, set->cur_node ? set->cur_node->schema : NULL, mod));
     if (!*mod) {
-        /* unprefixed JSON identity */
-        assert(set->format == LY_VALUE_JSON);
-        *mod = set->cur_mod;
+        /* unprefixed identity, use the current module or the module of the context node */
+        if (set->cur_mod) {
+            *mod = set->cur_mod;
+        } else if (set->cur_node && set->cur_node->schema) {
+            *mod = set->cur_node->schema->module;
+        } else {
+            LOGVAL(set->ctx, LYVE_XPATH, "Identity \"%.*s\" without a module prefix cannot be resolved.",
+                    (int)*qname_len, *qname);
+            return LY_EVALID;
+        }
     }
 
     return LY_SUCCESS;
